@@ -157,13 +157,13 @@ func main() {
 		"truncations 0..63, extensions 1..33 bytes, coordinates +p, off-curve points; through DeserializeSign+VerifySig, SetHexString+VerifySig, " +
 		"ByteToPublicKey+VerifySig. A case is counted distinct by (instance, entry point, candidate bytes); non-trivial = not rejected by the bare " +
 		"'fewer than 64/128 bytes' length test (i.e. the coordinates were parsed), plus codec round trips and pairing samples with distinct scalars")
-	cs := hx.NewCases(a.Out, "From V.C14 Require Import Model Harness.", "case", "check", 250)
+	cs := hx.NewCases(a.Out, "From V.C14 Require Import Model Harness.", "case", "check_fast", 120)
 	thorough := a.Tier == "thorough"
 	nInst := a.N
 	if nInst < 2 {
 		nInst = 2
 	}
-	fullFor := 2 // instances with the exhaustive flip / truncation / extension families
+	fullFor := 1 // instances with the exhaustive flip / truncation / extension families
 	if thorough {
 		fullFor = nInst
 	}
@@ -266,7 +266,7 @@ func main() {
 				cands = append(cands, cand{"flip", fmt.Sprintf("(CFlip %d%%N)", bit), flip(hb, bit), false})
 			}
 		} else {
-			for k := 0; k < 40; k++ {
+			for k := 0; k < 24; k++ {
 				bit := rng.Intn(512)
 				cands = append(cands, cand{"flip", fmt.Sprintf("(CFlip %d%%N)", bit), flip(hb, bit), false})
 			}
@@ -423,7 +423,7 @@ func main() {
 		}
 		padd("offcurve:random", rng.Bytes(128))
 		padd("offcurve:swapped", append(cp(pkb[64:]), pkb[:64]...))
-		nflip := 24
+		nflip := 10
 		if inst < fullFor {
 			nflip = 128
 		}
